@@ -1,21 +1,21 @@
 (* The translator tie, part 3c: the mutators' boundary arrays and TypeConfusion's byte -> type table
-   (gen/SrcConsts.v) are the model's. *)
+   (gen/SrcAscii.v, gen/SrcFront.v, gen/SrcMut.v) are the model's. *)
 From Coq Require Import List NArith ZArith Bool Arith Lia.
 Import ListNotations.
 From PF Require Import Opcodes RefTable Config Sim.
 From PF Require Import Lex Entropy Mutators Front.
-From PF.gen Require SrcConsts.
+From PF.gen Require SrcMut.
 
 Lemma src_boundaries_eq :
-  SrcConsts.Src.int_boundaries = int_boundaries /\ SrcConsts.Src.long_boundaries = long_boundaries
-  /\ SrcConsts.Src.float_boundaries = float_boundaries.
+  SrcMut.Src.int_boundaries = int_boundaries /\ SrcMut.Src.long_boundaries = long_boundaries
+  /\ SrcMut.Src.float_boundaries = float_boundaries.
 Proof. repeat split. Qed.
 
 (* opcode_to_type takes a u8: all 256 byte values *)
-Lemma src_byte_type_eq : forall b, (b < 256)%N -> SrcConsts.Src.byte_type b = byte_type b.
+Lemma src_byte_type_eq : forall b, (b < 256)%N -> SrcMut.Src.byte_type b = byte_type b.
 Proof.
   intros b Hb.
-  assert (E : forallb (fun x => N.eqb (SrcConsts.Src.byte_type x) (byte_type x)) (map N.of_nat (seq 0 256)) = true)
+  assert (E : forallb (fun x => N.eqb (SrcMut.Src.byte_type x) (byte_type x)) (map N.of_nat (seq 0 256)) = true)
     by (vm_compute; reflexivity).
   rewrite forallb_forall in E. apply N.eqb_eq. apply E.
   apply in_map_iff. exists (N.to_nat b). split; [apply N2Nat.id | apply in_seq; lia].
